@@ -6,9 +6,15 @@ import (
 	"fmt"
 	"reflect"
 	"sort"
+	"strconv"
 
 	apiv1 "k8s.io/api/core/v1"
 	discoveryV1 "k8s.io/api/discovery/v1"
+	"k8s.io/apimachinery/pkg/api/meta"
+	"k8s.io/apimachinery/pkg/runtime/schema"
+	clientgoscheme "k8s.io/client-go/kubernetes/scheme"
+	k8stesting "k8s.io/client-go/testing"
+	"sigs.k8s.io/controller-runtime/pkg/client/apiutil"
 	"sigs.k8s.io/controller-runtime/pkg/client"
 	"sigs.k8s.io/controller-runtime/pkg/client/fake"
 
@@ -21,17 +27,52 @@ import (
 // first-batch preparer's Get/List, the ServiceResolver's EndpointSlice List, getGatewayAddresses.
 type World struct {
 	cl   client.WithWatch
+	raw  k8stesting.ObjectTracker        // the store behind the fake client: written directly for what the client API refuses
 	objs map[p.Key]client.Object // what the API server stores (after generation/resourceVersion bookkeeping)
 	rv   int
+	made int // objects created so far (picks the first resourceVersion of the next one)
 }
 
+// rvStarts: the resourceVersion the API server hands to a newly created object. Real resourceVersions are etcd revisions
+// of any magnitude; the values sit just below digit-length boundaries so that histories cross them (8 → 9 → 10,
+// 998 → 999 → 1000): a component that compares resourceVersions as strings sees an update as older than the stored copy.
+var rvStarts = []int{8, 95, 998, 9995, 7, 97, 1, 9998, 9}
+
 func NewWorld() *World {
+	raw := k8stesting.NewObjectTracker(p.Scheme, clientgoscheme.Codecs.UniversalDecoder())
 	cl := fake.NewClientBuilder().
 		WithScheme(p.Scheme).
+		WithObjectTracker(raw).
 		WithIndex(&discoveryV1.EndpointSlice{}, index.KubernetesServiceNameIndexField, index.ServiceNameIndexFunc).
 		Build()
-	return &World{cl: cl, objs: map[p.Key]client.Object{}}
+	return &World{cl: cl, raw: raw, objs: map[p.Key]client.Object{}}
 }
+
+func gvrOf(o client.Object) (schema.GroupVersionResource, error) {
+	gvk, err := apiutil.GVKForObject(o, p.Scheme)
+	if err != nil {
+		return schema.GroupVersionResource{}, err
+	}
+	gvr, _ := meta.UnsafeGuessKindToResource(gvk)
+	return gvr, nil
+}
+
+// rewrite stores obj as it is (resourceVersion, deletionTimestamp, generation included), past the client API.
+func (w *World) rewrite(o client.Object) error {
+	gvr, err := gvrOf(o)
+	if err != nil {
+		return err
+	}
+	return w.raw.Update(gvr, o, o.GetNamespace())
+}
+
+func bumpRV(o client.Object) {
+	n, _ := strconv.Atoi(o.GetResourceVersion())
+	o.SetResourceVersion(strconv.Itoa(n + 1))
+}
+
+// HoldFinalizer keeps an object whose deletion was requested in the cluster (Terminating).
+const HoldFinalizer = "verif.example.com/hold"
 
 // specOf returns the object without metadata and status (what decides a generation bump).
 func specOf(o client.Object, withLabels bool) any {
@@ -62,7 +103,16 @@ func (w *World) Apply(key p.Key, obj client.Object) (oldObj, newObj client.Objec
 		if oldObj == nil {
 			return nil, nil, fmt.Errorf("delete of absent %s", key)
 		}
-		if err := w.cl.Delete(ctx, oldObj.DeepCopyObject().(client.Object)); err != nil {
+		if len(oldObj.GetFinalizers()) > 0 {
+			// the last finalizer is removed (and deletion requested, if it was not yet): the object is gone for good
+			gvr, err := gvrOf(oldObj)
+			if err != nil {
+				return nil, nil, err
+			}
+			if err := w.raw.Delete(gvr, oldObj.GetNamespace(), oldObj.GetName()); err != nil {
+				return nil, nil, err
+			}
+		} else if err := w.cl.Delete(ctx, oldObj.DeepCopyObject().(client.Object)); err != nil {
 			return nil, nil, err
 		}
 		delete(w.objs, key)
@@ -70,6 +120,22 @@ func (w *World) Apply(key p.Key, obj client.Object) (oldObj, newObj client.Objec
 	}
 	n := obj.DeepCopyObject().(client.Object)
 	ki := kindByName[key.Kind]
+	// Terminating: deletion was requested while a finalizer holds the object. The API server sets deletionTimestamp (and
+	// bumps metadata.generation where the kind has one); the object stays in the cluster, in the caches and in every
+	// listing until the finalizer goes. deletionTimestamp is immutable afterwards.
+	markTerminating := n.GetDeletionTimestamp() != nil && (oldObj == nil || oldObj.GetDeletionTimestamp() == nil)
+	wantTS, wantFin := n.GetDeletionTimestamp(), n.GetFinalizers()
+	if markTerminating {
+		n.SetDeletionTimestamp(nil)
+		if oldObj != nil {
+			n.SetFinalizers(oldObj.GetFinalizers())
+		} else {
+			n.SetFinalizers(nil)
+		}
+	} else if oldObj != nil && oldObj.GetDeletionTimestamp() != nil {
+		n.SetDeletionTimestamp(oldObj.GetDeletionTimestamp())
+		n.SetFinalizers(oldObj.GetFinalizers())
+	}
 	var wantStatus *apiv1.ServiceStatus // the fake client overwrites .status of the object passed to Create/Update
 	if svc, ok := n.(*apiv1.Service); ok {
 		wantStatus = svc.Status.DeepCopy()
@@ -78,6 +144,16 @@ func (w *World) Apply(key p.Key, obj client.Object) (oldObj, newObj client.Objec
 		n.SetGeneration(1)
 		n.SetResourceVersion("")
 		if err := w.cl.Create(ctx, n); err != nil {
+			return nil, nil, err
+		}
+		// the resourceVersion a new object gets is wherever the cluster's revision counter stands
+		first := ki.bare()
+		if err := w.cl.Get(ctx, key.NN, first); err != nil {
+			return nil, nil, err
+		}
+		first.SetResourceVersion(strconv.Itoa(rvStarts[w.made%len(rvStarts)]))
+		w.made++
+		if err := w.rewrite(first); err != nil {
 			return nil, nil, err
 		}
 	} else {
@@ -104,6 +180,24 @@ func (w *World) Apply(key p.Key, obj client.Object) (oldObj, newObj client.Objec
 			if err := w.cl.Status().Update(ctx, cur); err != nil {
 				return nil, nil, err
 			}
+		}
+	}
+	if markTerminating {
+		cur := ki.bare()
+		if err := w.cl.Get(ctx, key.NN, cur); err != nil {
+			return nil, nil, err
+		}
+		if len(wantFin) == 0 {
+			wantFin = []string{HoldFinalizer}
+		}
+		cur.SetFinalizers(wantFin)
+		cur.SetDeletionTimestamp(wantTS)
+		if cur.GetGeneration() > 0 && ki.genOnSpec {
+			cur.SetGeneration(cur.GetGeneration() + 1)
+		}
+		bumpRV(cur)
+		if err := w.rewrite(cur); err != nil {
+			return nil, nil, err
 		}
 	}
 	// read back what the server stored (resourceVersion assigned by the tracker)
